@@ -232,18 +232,26 @@ func (g *gen) scalarConst(kind, poolName string, allowNull bool) string {
 		return "@owner" + strconv.Itoa(rapid.IntRange(0, len(ownerNames)-1).Draw(t, "cowner"))
 	}
 	p := pools[poolName]
+	src := p.vals
+	if chance(t, "ccommon", 65) {
+		// mostly the values that the documents mostly hold, so that bounds hit stored values
+		src = p.vals[:p.common]
+	}
 	var vals []string
 	if kind != fdef(poolName).Kind || fdef(poolName).Arr {
 		// element pool of an array field: flatten
-		for _, a := range p.vals {
+		for _, a := range src {
 			for _, e := range parseJSON(a).([]any) {
 				if e != nil {
 					vals = append(vals, jsonText(e))
 				}
 			}
 		}
+		if len(vals) == 0 {
+			vals = []string{pools[poolName].vals[0][1 : len(pools[poolName].vals[0])-1]}
+		}
 	} else {
-		vals = p.vals
+		vals = src
 	}
 	base := pick(t, "cbase", vals)
 	mode := rapid.IntRange(0, 9).Draw(t, "cmode")
@@ -559,8 +567,52 @@ func (g *gen) filter(depth int) *F {
 
 var orderable = map[string]bool{"s": true, "i": true, "f": true, "g": true, "b": true, "t": true, "bl": true}
 
+// probe is a plain single-condition query on the first field of an index whose operand is
+// taken from a stored document: the shape that exercises one range bound / one operator exactly.
+func (g *gen) probe() (Query, bool) {
+	t := g.t
+	var cands []string
+	for _, f := range g.first {
+		fd := fdef(f)
+		if fd.Kind != "json" && fd.Kind != "rel" {
+			cands = append(cands, f)
+		}
+	}
+	if len(cands) == 0 {
+		return Query{}, false
+	}
+	fd := fdef(pick(t, "pfield", cands))
+	leaf := &F{Op: "leaf", Field: fd.Name}
+	ops := opsFor(FieldDef{Kind: fd.Kind})
+	var scalarOps []string
+	for _, o := range ops {
+		if o != "_in" && o != "_nin" && !isLike(o) {
+			scalarOps = append(scalarOps, o)
+		}
+	}
+	leaf.Cmp = pick(t, "pcmp", scalarOps)
+	if fd.Arr {
+		leaf.Arr = pick(t, "parr", []string{"_any", "_any", "_all"})
+		if leaf.Arr == "_all" && g.avoid(sigAllEmptyArray) {
+			leaf.Arr = "_any"
+		}
+	}
+	leaf.Val = g.scalarConst(fd.Kind, fd.Name, false)
+	leaf.FromDoc = 1 + rapid.IntRange(0, 30).Draw(t, "pdoc")
+	q := Query{Filter: leaf}
+	if orderable[fd.Name] && chance(t, "pord", 30) {
+		q.Order = []Ord{{F: fd.Name, Desc: chance(t, "porddesc", 50)}}
+	}
+	return q, true
+}
+
 func (g *gen) query() Query {
 	t := g.t
+	if chance(t, "probe", 35) {
+		if q, ok := g.probe(); ok {
+			return q
+		}
+	}
 	q := Query{}
 	if !chance(t, "nofilter", 12) {
 		q.Filter = g.filter(0)
@@ -657,7 +709,7 @@ func drawCase(t *rapid.T) Case {
 		}
 	}
 	c.Ops = g.ops()
-	nq := rapid.IntRange(4, 12).Draw(t, "nq")
+	nq := rapid.IntRange(6, 16).Draw(t, "nq")
 	for k := 0; k < nq; k++ {
 		q := g.query()
 		g.sanitize(&q)
